@@ -1,7 +1,7 @@
 // Translation unit for the tokenizer kernel (C02-K2, C06-K2, C07-K1, C08-K2..K4): TokenInfo, TokenContext
 // (whole struct definitions), the white-space / newline primitives of src/tokenizer/tokenize.cpp, and the tail
 // of tokenize() that chooses cpd.newline -- all sliced verbatim.
-#include "/repo/src/token_enum.h"
+#include "token_enum.h"      /* from the working tree: -I <repo>/src */
 #define VERIF_E_TOKEN
 #include "base.h"
 #include "containers.h"
